@@ -126,8 +126,9 @@ Theorem C07_rounded_rect_simple : forall (w h r : R) (segments : Z) (center : bo
 Proof. exact rounded_rect_simple. Qed.
 (* "feeding any of them to linear_extrude yields an outward-facing solid": for every outline above the extrusion by a
    positive height has vol6 < 0 (faces clockwise seen from outside, Geom/Volume_proofs.v) as soon as the top cap is
-   completely triangulated -- which is unconditional for circle, inscribed and circumscribed polygons (C04_every_cylinder,
-   C04_polygon_prisms) and is the open part of C03 for the non-convex ones *)
+   completely triangulated -- which is unconditional for circle, inscribed and circumscribed polygons and the rounded
+   rectangle (C04_every_cylinder, C04_polygon_prisms, C04_rounded_rect_prism) and is the open part of C03 for star and
+   chamfer *)
 From Coq Require Import Lra Psatz.
 From SCAD Require Import Geom.Tri Geom.Dim3 Geom.Mesh_proofs Geom.Volume_proofs.
 Theorem C07_extrusions_outward : forall (pts : list (pt2 R)) (h : R) ph,
